@@ -155,7 +155,10 @@ def sane_number(rng, draft4):
     if rng.random() < 0.12:
         s["enum"] = sorted({rng.randint(lo, hi) for _ in range(rng.randint(1, 3))})
     if rng.random() < 0.1 and "multipleOf" not in s and "enum" not in s and not any(k.startswith("exclusive") for k in s):
-        s[rng.choice(["example", "default"])] = rng.randint(lo, hi)   # a value the schema accepts
+        lo_ok = int(s["minimum"] + 0.5) if "minimum" in s else lo
+        hi_ok = int(s["maximum"] - 0.5) if isinstance(s.get("maximum"), float) else s.get("maximum", hi)
+        if lo_ok <= hi_ok:
+            s[rng.choice(["example", "default"])] = rng.randint(lo_ok, hi_ok)   # a value the schema accepts
     return s
 
 
